@@ -49,7 +49,7 @@ func crashTrace(en *Env, cfg h.Cfg, ops int, batchHeavy bool, stats map[string]i
 	nkeys := 2 + r.Intn(4)
 	dir := en.FreshDir()
 	defer en.Drop(dir)
-	u := h.SimpleKeys(nkeys, 5+r.Intn(6))
+	u := h.PickKeys(r, nkeys, 5+r.Intn(6))
 	vs := h.NewValues()
 	e := h.NewEng(dir, en.Work+"/scratch", cfg, u, vs, en.T)
 	en.T.Emit(h.Ev{"ev": "reset", "n": nkeys, "seed": en.Seed, "prof": "crash", "cfg": cfg.Ev()})
